@@ -17,7 +17,16 @@ SPEC = {
              "the harness's own unique names) have a pool whose id is copied from another one (the same free-form name twice, or an "
              "explicit id equal to the default name of an unnamed pool); about one case in six has a plain, non-failing delay in a step "
              "of one pool that looks at no context (gun factory call i, WarmUp, schedule factory call i): 0.2-100 ms, or 1.5-2 s "
-             "(one case in twenty) mostly together with a cancel 0-100 ms into the run (run once); every other case runs 3 times. A nil result is accepted only if "
+             "(one case in twenty) mostly together with a cancel 0-100 ms into the run (run once); every other case runs 3 times. "
+             "Two thirds of the fault-only cases with several pools (about 12 % of all cases) are 'one pool fails, nobody cancels, the "
+             "others cannot end by themselves': one or all of the other pools get the 60 s profile with unbounded ammo, the fault plan of "
+             "the failing pool is made sure to be reached whatever the others do (first-call faults as they are; 'at the very end' faults "
+             "with finite own work; after-k / shot-j / call-i faults with endless own work), and the harness does NOT cancel its context "
+             "after Run returned - it never does before it has seen Engine.Wait return and everything stop, except where the case "
+             "itself cancels - so only the engine can stop the surviving pools. One closable-gun pool in three has guns whose Close takes "
+             "1-50 ms (per instance id, some instant); a gun counts as closed when its Close has returned, and 'bound closable guns are "
+             "closed exactly once' is judged at the instant Engine.Run returns nil and at the instant Engine.Wait returns (and again after "
+             "everything stopped). A nil result is accepted only if "
              "every pool used up its ammo or its schedule, cancel or not; the cancellation error must come within 1 s of the cancel. "
              "Non-trivial = a fault was actually reached or the cancel arrived while Run was in progress; distinct = hash of the case."),
     "floors": {"TestOutcome/fault_provider": 0.05, "TestOutcome/fault_aggregator": 0.036, "TestOutcome/fault_sched": 0.02,
@@ -28,13 +37,21 @@ SPEC = {
                "TestOutcome/panic_kind_int": 2, "TestOutcome/panic_kind_struct": 2, "TestOutcome/panic_kind_runtime": 2,
                "TestOutcome/pool_ids_equal": 0.07, "TestOutcome/pool_id_equals_default_name_of_other": 0.04,
                "TestOutcome/pool_ids_equal_and_fault_reached": 0.03, "TestOutcome/cancel_inside_blind_step": 0.02,
-               "TestOutcome/cancel_inside_long_blind_step": 8, "TestOutcome/cancel_inside_long_blind_startup_step_other_pools_done": 5},
+               "TestOutcome/cancel_inside_long_blind_step": 8, "TestOutcome/cancel_inside_long_blind_startup_step_other_pools_done": 5,
+               "TestOutcome/pool_failed_no_caller_cancel_sibling_endless": 0.06,
+               "TestOutcome/pool_failed_no_caller_cancel_sibling_was_shooting": 0.045,
+               "TestOutcome/pool_failed_no_caller_cancel_sibling_is_first_pool": 0.03,
+               "TestOutcome/slow_gun_close": 0.12, "TestOutcome/slow_gun_close_instance_0": 0.09, "TestOutcome/slow_gun_close_instance_gt_0": 0.07,
+               "TestOutcome/slow_gun_close_result_nil": 0.03, "TestOutcome/slow_gun_close_result_ctx_err": 0.025,
+               "TestOutcome/slow_gun_close_result_fault": 0.05},
     "manifest": {
         "technique": "fault-injection property testing (rapid) of the real engine with recording doubles; outcome oracle from which faults were actually reached",
         "text": ("Generated fault/cancel plans are run against the real engine; the doubles record which injected fault actually returned "
                  "its error. Result must be nil iff nothing failed and no in-progress cancel cut work short, must carry a reached fault "
                  "or the context error otherwise; afterwards Engine.Wait returns, provider/aggregator Run returned, InstanceStart = "
-                 "InstanceFinish, bound closable guns are closed exactly once and no engine goroutine survives. Orderings of the engine's "
+                 "InstanceFinish, bound closable guns are closed exactly once - already at the instant Run returns nil / Wait returns, with "
+                 "Close calls that take 1-50 ms - and no engine goroutine survives; the harness leaves its own context alone until then, so "
+                 "after one pool's failure the engine itself has to stop pools that would otherwise shoot for a minute. Orderings of the engine's "
                  "result channels are those the Go scheduler produced over 3 runs per case (plus -race in thorough)."),
         "note": ("Hang verdicts use a 20 s deadline (normal runs take < 50 ms). Guns whose Bind failed and the warm-up probe gun are not "
                  "required to be closed. A nil result - after an in-progress cancel or not - is accepted only if the history shows all work of every pool was "
